@@ -177,7 +177,7 @@ type c08PortResult struct {
 	Bytes    []byte
 }
 
-func c08PortRoundTrip(c c08MsgCase, in, out []messaging.Msg) (r c08PortResult) {
+func c08PortRoundTrip(c c08MsgCase, in, out []messaging.Msg, compareBytes bool) (r c08PortResult) {
 	ok, sig, msg := kit.Guard(func() {
 		p1 := newStubPort(c.Port, c.InCap, c.OutCap)
 		for _, m := range in {
@@ -290,7 +290,7 @@ func TestC08ValuesMessages(t *testing.T) {
 			out = append(out, m)
 			orig = append(orig, v)
 		}
-		r := c08PortRoundTrip(c, in, out)
+		r := c08PortRoundTrip(c, in, out, true)
 		if r.Sig == "harness" {
 			f.Fatalf("harness: %s", r.Msg)
 		}
@@ -388,7 +388,9 @@ func TestC08ValuesMessagesInvalidUTF8(t *testing.T) {
 			m, v := buildMsg(types, mv, replayStream(mv.Stream), &fillOpts{invalidUTF8: true}, c.Port)
 			out, orig = append(out, m), append(orig, v)
 		}
-		r := c08PortRoundTrip(c, in, out)
+		// (byte comparison off: encoding/json writes an invalid byte as the
+		// escape \ufffd but the restored, now valid, U+FFFD as raw UTF-8)
+		r := c08PortRoundTrip(c, in, out, false)
 		if r.Sig != "" {
 			s.Note(c, true, "outcome:"+r.Sig)
 			return
@@ -799,7 +801,7 @@ func buildC08Comp() *modeling.Component[modeling.None, c08State, modeling.None] 
 
 func TestC08ValuesContainers(t *testing.T) {
 	s := kit.Begin(t, "C08", "values-containers",
-		"State struct holding queueing.Buffer[item] (name from a pool, capacity 0-4), 1-2 banks of {queueing.Pipeline[item] (width 1-3, 1-4 stages), queueing.Buffer post (capacity 0-3)}, 1-2 {lruset.Set (1-4 ways), []bool} holders, as library States embed them; driven through the exported API by 0-14 drawn operations (push/pop/clear/update-front; accept with delay 0-3 / tick into the post buffer / clear / pop; visit/evict/update-key/remove/lookup with keys incl. KeyString forms, empty and non-ASCII keys), preconditions respected. Then the State goes through Builder.Build + Component.SaveCheckpoint -> LoadCheckpoint into a second built component, and each container additionally through a stand-alone json.Marshal/Unmarshal. Oracle (by behaviour): identical API views right after the restore, identical answers to every one of 0-10 further drawn operations applied to both the original and the restored State, identical final views, identical LRU drain order, byte-identical re-marshalling. Non-trivial: at the cut a buffer or pipeline is non-empty or an LRU set was re-ordered")
+		"State struct holding queueing.Buffer[item] (name from a pool, capacity 0-4), 1-2 banks of {queueing.Pipeline[item] (width 1-3, 1-4 stages), queueing.Buffer post (capacity 0-3)}, 1-2 {lruset.Set (1-4 ways), []bool} holders, as library States embed them; driven through the exported API by 0-20 drawn operations (push/pop/clear/update-front; accept with delay 0-3 / tick into the post buffer / clear / pop; visit/evict/update-key/remove/lookup with keys incl. KeyString forms, empty and non-ASCII keys), preconditions respected. Then the State goes through Builder.Build + Component.SaveCheckpoint -> LoadCheckpoint into a second built component, and each container additionally through a stand-alone json.Marshal/Unmarshal. Oracle (by behaviour): identical API views right after the restore, identical answers to every one of 0-10 further drawn operations applied to both the original and the restored State, identical final views, identical LRU drain order, byte-identical re-marshalling. Non-trivial: at the cut a buffer or pipeline is non-empty or an LRU set was re-ordered")
 	defer s.End()
 
 	run := func(f kit.Failer, c c08ContCase) {
@@ -960,7 +962,7 @@ func TestC08ValuesContainers(t *testing.T) {
 	}
 
 	genOp := func(rt *rapid.T, label string) c08Op {
-		k := rapid.SampledFrom([]string{"push", "push", "pop", "clear", "upd", "accept", "accept", "accept", "tick", "tick", "tick", "pclear", "postpop",
+		k := rapid.SampledFrom([]string{"push", "push", "pop", "clear", "upd", "accept", "accept", "accept", "tick", "tick", "tick", "tick", "tick", "tick", "pclear", "postpop",
 			"visit", "visit", "visit", "evict", "evict", "setkey", "setkey", "rmkey", "lookup"}).Draw(rt, label)
 		return c08Op{K: k, I: rapid.IntRange(0, 1).Draw(rt, "i"), Way: rapid.IntRange(0, 3).Draw(rt, "way"),
 			Key: rapid.IntRange(0, len(c08Keys)-1).Draw(rt, "key"), Old: rapid.IntRange(0, len(c08Keys)-1).Draw(rt, "old"),
@@ -980,7 +982,7 @@ func TestC08ValuesContainers(t *testing.T) {
 		for i := 0; i < ns; i++ {
 			c.Ways = append(c.Ways, rapid.IntRange(1, 4).Draw(rt, "ways"))
 		}
-		npre := rapid.IntRange(0, 14).Draw(rt, "npre")
+		npre := rapid.IntRange(0, 20).Draw(rt, "npre")
 		for i := 0; i < npre; i++ {
 			c.Pre = append(c.Pre, genOp(rt, "pre"))
 		}
@@ -993,6 +995,25 @@ func TestC08ValuesContainers(t *testing.T) {
 }
 
 // ------------------------------------------------------------ library State values
+
+// lruSetHook builds lruset.Set values through the constructor: the zero Set
+// (nil key map) is not a state the API can reach - NewSet is the only
+// constructor - and UnmarshalJSON deliberately restores a non-nil map.
+func lruSetHook(v reflect.Value, s *stream) bool {
+	if v.Type() != reflect.TypeOf(lruset.Set{}) {
+		return false
+	}
+	ways := 1 + int(s.n(4))
+	set := lruset.NewSet(ways)
+	for i := int(s.n(4)); i > 0; i-- {
+		set.Visit(int(s.n(uint64(ways))))
+	}
+	if s.n(2) == 1 {
+		set.UpdateKey(int(s.n(uint64(ways))), "", lruset.KeyString(s.n(3), s.raw()))
+	}
+	v.Set(reflect.ValueOf(set))
+	return true
+}
 
 type c08LibCase struct {
 	Type   int      `json:"type"`
@@ -1016,12 +1037,28 @@ func TestC08ValuesLibState(t *testing.T) {
 	defer s.End()
 	s.Assume("State type list = the component packages that call modeling.NewBuilder in /repo outside examples/ and tests, minus the unexported migState of mem/acceptancetests/pagemigration")
 
+	// Listed nil-vs-empty findings are steered around by construction: where
+	// the draw asks for an empty non-nil slice in such an omitempty field, nil
+	// is stored instead (counted as excluded). The same rule applies when a
+	// case is rebuilt from its recorded draws.
+	libFill := func(typeName string, steered *int) *fillOpts {
+		return &fillOpts{skipCustom: true, hook: lruSetHook, steerOmitEmpty: func(path string) bool {
+			if _, known := s.IsKnown("state-nil-vs-empty:" + typeName + "." + path); known {
+				if steered != nil {
+					*steered++
+				}
+				return true
+			}
+			return false
+		}}
+	}
+
 	run := func(f kit.Failer, c c08LibCase) {
 		if c.Type >= len(libStates) || libStates[c.Type].Name != c.Name {
 			f.Fatalf("harness: case names State type %d/%s unknown to this tree", c.Type, c.Name)
 		}
 		e := libStates[c.Type]
-		v := newFilled(e.Typ, replayStream(c.Stream), &fillOpts{skipCustom: true})
+		v := newFilled(e.Typ, replayStream(c.Stream), libFill(e.Name, nil))
 		var out any
 		var saved, resaved []byte
 		var err error
@@ -1067,8 +1104,76 @@ func TestC08ValuesLibState(t *testing.T) {
 		c := c08LibCase{Type: rapid.IntRange(0, len(libStates)-1).Draw(rt, "type")}
 		c.Name = libStates[c.Type].Name
 		st := genStream(rt)
-		newFilled(libStates[c.Type].Typ, st, &fillOpts{skipCustom: true})
+		steered := 0
+		newFilled(libStates[c.Type].Typ, st, libFill(c.Name, &steered))
 		c.Stream = st.rec
+		if steered > 0 {
+			s.Excluded(1)
+		}
 		run(rt, c)
 	})
+}
+
+// c08KnownNilEmpty reproduces one listed nil-vs-empty finding deterministically.
+func c08KnownNilEmpty(t *testing.T, sub, typeName, path string) {
+	sig := "state-nil-vs-empty:" + typeName + "." + path
+	s := kit.Begin(t, "C08", sub, "deterministic: "+typeName+" with one element in every slice on the path to "+path+" and that field set to an empty non-nil slice; component checkpoint round trip; same oracle as values-libstate")
+	defer s.End()
+	if kit.ReplayMode() {
+		t.Skip()
+	}
+	s.Exhaustive()
+	var e libEntry
+	for _, x := range libStates {
+		if x.Name == typeName {
+			e = x
+		}
+	}
+	v := reflect.New(e.Typ).Elem()
+	cur := v
+	parts := strings.Split(path, ".")
+	for i, p := range parts {
+		f := cur.FieldByName(p)
+		if !f.IsValid() {
+			t.Fatalf("harness: %s has no field path %s", typeName, path)
+		}
+		if i == len(parts)-1 {
+			f.Set(reflect.MakeSlice(f.Type(), 0, 0))
+			break
+		}
+		f.Set(reflect.MakeSlice(f.Type(), 1, 1))
+		cur = f.Index(0)
+	}
+	out, saved, _, err := e.RT(v.Interface())
+	if err != nil {
+		s.Fail(t, path, "state-roundtrip-error:"+typeName, "%v", err)
+		return
+	}
+	if d := diffTop(v.Interface(), out, &diffOpts{noOmitEmptyWaiver: true, skipOpaque: true}); d != nil {
+		got := msgDiffSig("state", typeName, d)
+		if got != sig {
+			s.Fail(t, path, got, "differs at %s (%s)", d.Path, d.Detail)
+			return
+		}
+		s.Note(path, true, "reproduces")
+		s.KnownStillFails(t, path, sig, fmt.Sprintf("%s: %s = empty non-nil slice -> checkpoint %s -> nil", typeName, path, saved))
+		return
+	}
+	s.Note(path, true, "holds")
+}
+
+func TestC08ValuesKnown_IdealMemDirtyMask(t *testing.T) {
+	c08KnownNilEmpty(t, "known-nil-empty-idealmem-dirtymask", "idealmemcontroller.State", "InflightTransactions.DirtyMask")
+}
+func TestC08ValuesKnown_IdealMemData(t *testing.T) {
+	c08KnownNilEmpty(t, "known-nil-empty-idealmem-data", "idealmemcontroller.State", "InflightTransactions.Data")
+}
+func TestC08ValuesKnown_RobRspData(t *testing.T) {
+	c08KnownNilEmpty(t, "known-nil-empty-rob-rspdata", "rob.State", "Transactions.RspData")
+}
+func TestC08ValuesKnown_AddrTransData(t *testing.T) {
+	c08KnownNilEmpty(t, "known-nil-empty-addrtrans-data", "addresstranslator.State", "Transactions.IncomingReqs.Data")
+}
+func TestC08ValuesKnown_AddrTransDirtyMask(t *testing.T) {
+	c08KnownNilEmpty(t, "known-nil-empty-addrtrans-dirtymask", "addresstranslator.State", "Transactions.IncomingReqs.DirtyMask")
 }
